@@ -206,6 +206,7 @@ def decide(check, crate, oid, setup, post, replay=None, rb=None, unwind=8, enums
                 continue
             try:
                 okr, text = replay(c["inputs"], rb)
+                check.replays += 1
             except Exception as e:  # noqa
                 okr, text = False, "replay error: %r" % (e,)
             c["reproduced"], c["native"] = okr, text
@@ -226,6 +227,7 @@ def decide(check, crate, oid, setup, post, replay=None, rb=None, unwind=8, enums
                 continue
             if replay is not None and k.get("witness") is not None:
                 okr, text = replay(k["witness"], rb)
+                check.replays += 1
                 if okr:
                     check.known_hit(k, "%s %s" % (k["id"], text))
         detail["known_findings_excluded"] = applied
@@ -260,7 +262,7 @@ def reaches_text(crate, fname, needle):
 
 
 MERGE_LISTS = ("obligations", "violations", "inconclusive", "samples", "functions", "bounds", "stubs", "assumptions", "trusted")
-MERGE_NUMS = ("solver_seconds", "covers_hit", "nontrivial", "queries", "validated")
+MERGE_NUMS = ("solver_seconds", "covers_hit", "nontrivial", "queries", "validated", "replays")
 
 
 def run_parallel(check, thunks, par=12):
